@@ -90,6 +90,24 @@ type WorkerArgs struct {
 	Race    bool
 }
 
+var scratchDir string
+
+// ScratchDir returns a directory for files a case has to hand to the code
+// under observation by name. In a worker it lies inside the run's work
+// directory (removed by the driver); in a replay it is a fresh temporary
+// directory.
+func ScratchDir() string {
+	if scratchDir == "" {
+		d, err := os.MkdirTemp("", "ivgverif-scratch-")
+		if err != nil {
+			d = os.TempDir()
+		}
+		scratchDir = d
+	}
+	os.MkdirAll(scratchDir, 0755)
+	return scratchDir
+}
+
 // WorkerMain runs in a worker process.
 func WorkerMain(a WorkerArgs) int {
 	p := Lookup(a.Prop)
@@ -102,6 +120,7 @@ func WorkerMain(a WorkerArgs) int {
 	if devnull, err := os.OpenFile("/dev/null", os.O_WRONLY, 0); err == nil {
 		os.Stdout = devnull
 	}
+	scratchDir = fmt.Sprintf("%s/w%d.scratch", a.OutDir, a.Shard)
 	prog, err := openProgress(fmt.Sprintf("%s/w%d.progress", a.OutDir, a.Shard))
 	if err != nil {
 		fmt.Fprintln(os.Stderr, "progress:", err)
